@@ -286,6 +286,8 @@ def run(ctx):
     ctx.log('TLC evaluated %d inputs (%d parser runs): P-rejected %d, I-rejected %d' % (len(outs), nprefix, len(prej), len(irej)))
     shown = {}
     for i in prej:
+        if len(ctx.violations) >= 5:
+            break
         b, tag = cases[i]
         o = outs[i]
         cls = classify(b, o['res'][o['pre'][-1] - 1])
